@@ -585,7 +585,9 @@ def write_evidence(pid, P, tier, seed, wall, vres, kres, obligations, discharged
         'wall_s': round(wall, 2),
         'violations': len(violations),
     }
-    common.write_json(os.path.join(HERE, 'evidence', '%s.json' % pid), ev)
+    # runs against a scratch tree (VERIF_REPO=..., used for canaries / seeded changes) never touch the real evidence
+    evdir = 'evidence' if common.REPO == '/repo' else os.path.join('.cache', 'evidence-scratch')
+    common.write_json(os.path.join(HERE, evdir, '%s.json' % pid), ev)
 
 
 def replay_file(pid, P, path, work):
